@@ -166,6 +166,57 @@ def k_units(ctx):
         u.mismatches.append(dict(case=cases[i], note="move operator differs from the model"))
 
 
+def k_move_part(ctx):
+    import gradient_free_optimizers as gfo
+    u = ctx.unit("K:Particle._move_part / Spiral._move_part", "K",
+                 "direct calls of _move_part(pos, velo) on a particle and on a spiral member: velocities from tiny to several times "
+                 "the dimension size in both directions, multiples of 1/8 (exact float sums), +-inf, NaN, on spaces with size-1 "
+                 "dimensions; non-trivial = pos + velo leaves the box; distinct by (space, pos, velo)")
+    rng = ctx.sub_rng("mp")
+    lits, cases = [], []
+    for it in range(120 if ctx.quick else 800):
+        space, meta = gen.gen_space(rng, ndims=rng.choice([1, 2, 3, 4]), sizes=(1, 2, 3, 5, 8, 13, 50), max_points=None)
+        dims = [len(a) for a in space.values()]
+        cls, attr = rng.choice([(gfo.ParticleSwarmOptimizer, "particles"), (gfo.SpiralOptimization, "particles")])
+        opt = cls(space, random_state=1, population=2, initialize={"random": 2})
+        member = getattr(opt, attr)[0]
+        pos = np.array([rng.randrange(d) for d in dims])
+        velo = []
+        for d in dims:
+            r = rng.random()
+            if r < 0.5:
+                v = rng.randint(-8 * 3 * d, 8 * 3 * d) / 8.0
+            elif r < 0.8:
+                v = float(rng.choice([-d, d, -2 * d, 2 * d, -(d - 1), d - 1, -0.5, 0.5, -0.875]))
+            elif r < 0.9:
+                v = rng.choice([1e12, -1e12, 123456.75])
+            else:
+                v = rng.choice([math.inf, -math.inf, math.nan])
+            velo.append(v)
+        with np.errstate(all="ignore"):
+            try:
+                out = ("ok", [int(x) for x in member._move_part(pos, np.array(velo, dtype=float))])
+            except Exception as e:
+                out = (type(e).__name__, None)
+        sp, _, _ = space_lits(space, None)
+        if out[0] != "ok":
+            ctx.violation(dict(kind="move-raises", op="_move_part", exception=out[0]), dict(space=jsonable(space), pos=pos.tolist(), velo=velo), "_move_part raised %s" % out[0])
+            continue
+        lits.append("(pe (move_part %s %s %s) %s)" % (sp, clist(pos.tolist()), clist(velo, xr_lit), clist(out[1])))
+        cases.append(dict(cls=cls.__name__, space=jsonable(space), pos=pos.tolist(), velo=velo, impl=out[1]))
+        outside = any(not (0 <= p + v <= d - 1) for p, v, d in zip(pos.tolist(), velo, dims) if not math.isnan(v))
+        u.count((tuple(dims), tuple(pos.tolist()), tuple(map(repr, velo))), nontrivial=outside)
+        # monitor: the property itself
+        if any(not (0 <= x < d) for x, d in zip(out[1], dims)):
+            ctx.violation(dict(kind="move-part-out-of-box", cls=cls.__name__), dict(space=jsonable(space), pos=pos.tolist(), velo=velo, result=out[1]),
+                          "%s member: _move_part(%r, %r) = %r leaves [0, len-1]" % (cls.__name__, pos.tolist(), velo, out[1]))
+    u.samples = cases[:3]
+    failing, err = coq_eval_cases(u.name, HDR, "bool", lits, "fun b => b", shard=200)
+    u.error = err
+    for i in failing[:10]:
+        u.mismatches.append(dict(case=cases[i], note="_move_part differs from the model"))
+
+
 def xr_lit(x):
     if math.isnan(x):
         return "XNaN"
@@ -368,6 +419,8 @@ def s_units_population(ctx):
 def run(ctx, which="ALL"):
     if which in ("C01", "C02", "C08", "ALL"):
         k_units(ctx)
+    if which in ("C01", "ALL"):
+        k_move_part(ctx)
     s_units(ctx, which)
     if which in ("C19", "ALL"):
         s_units_population(ctx)
